@@ -329,35 +329,26 @@ Theorem C19_hdr_upper_is_definition : forall data f bs,
 Proof. exact hdr_upper_is_definition. Qed.
 Print Assumptions C19_hdr_upper_is_definition.
 
-(* only_upper_part = False.  Full statement: the intervals are exactly the maximal runs of an upper
-   level set {i : data[i] >= L} whose samples hold the fraction while no higher level set does, and
-   amplitude * (number of its samples) = (its area) - f * total.  False when the largest sample is
-   tied and one of the tied samples alone holds the fraction: the tie test
-   `lowest_sample_seen == data[max_to_min[j]]` never skips j = 1 (lowest_sample_seen starts at inf),
-   so only the last of the tied samples is returned. *)
-Definition C19_full_hdr_is_definition : Prop :=
-  forall data f bs,
-    Forall (fun d => 0 <= d) data -> 0 < zsum data -> (0 < f)%Q -> (f <= 1)%Q ->
-    exists o, highest_density_region data [f] false bs = Ok [o] /\ hdr_level_result data f o.
-
-Theorem C19_hdr_is_definition_partial : forall data f bs,
-  Forall (fun d => 0 <= d) data -> 0 < zsum data -> (0 < f)%Q -> (f <= 1)%Q -> no_top_tie data f ->
+(* only_upper_part = False (repaired, /repo 2181c25: the tie test starts from the largest sample):
+   the intervals are exactly the maximal runs of an upper level set {i : data[i] >= L} whose samples
+   hold the fraction while no higher level set does, and amplitude * (number of its samples) =
+   (its area) - f * total. *)
+Theorem C19_hdr_is_definition : forall data f bs,
+  Forall (fun d => 0 <= d) data -> 0 < zsum data -> (0 < f)%Q -> (f <= 1)%Q ->
   exists o, highest_density_region data [f] false bs = Ok [o] /\ hdr_level_result data f o.
 Proof. exact hdr_level_is_definition. Qed.
-Print Assumptions C19_hdr_is_definition_partial.
+Print Assumptions C19_hdr_is_definition.
 
-Theorem C19_hdr_is_definition_refuted : ~ C19_full_hdr_is_definition.
-Proof. exact hdr_level_full_refuted. Qed.
-Print Assumptions C19_hdr_is_definition_refuted.
-
-(* the witness: data [3,1,3,0], fraction 1/4 -> the single interval [2,3), sample 0 (also 3) left out *)
-Theorem C19_hdr_is_definition_refuted_witness :
+(* documentation of the pinned tree: with `lowest_sample_seen = np.inf` the tie test never skipped
+   j = 1, so a tied largest sample was cut when one of the tied samples alone held the fraction:
+   data [3,1,3,0], fraction 1/4 -> the single interval [2,3), sample 0 (also 3) left out *)
+Theorem C19_hdr_is_definition_pinned_refuted :
   exists data f bs o,
     Forall (fun d => 0 <= d) data /\ 0 < zsum data /\ (0 < f)%Q /\ (f <= 1)%Q /\
-    highest_density_region data [f] false bs = Ok [o] /\ ho_iv o = Some [(2, 3)] /\
+    highest_density_region_pinned data [f] false bs = Ok [o] /\ ho_iv o = Some [(2, 3)] /\
     ~ hdr_level_result data f o.
-Proof. exact hdr_level_tie_refuted. Qed.
-Print Assumptions C19_hdr_is_definition_refuted_witness.
+Proof. exact hdr_level_tie_pinned_refuted. Qed.
+Print Assumptions C19_hdr_is_definition_pinned_refuted.
 
 (* an ascending list of fractions: every fraction gets the result it would get alone (both modes);
    a total <= 0 is the ValueError *)
